@@ -128,19 +128,27 @@ def field_suite(res, rng, tier):
     bad = []
     n = 0
     warnings.simplefilter("ignore")
-    for pol in POL:
+    for fpol in [None] + list(POL):
+      for opol in [None] + list(POL):
+        # the field's own policy, when given, wins over the policy of the options (the class's here); 'throw' is a policy too
+        pol = fpol or opol or "throw"
         for required in (True, False):
             for has_default in (True, False):
                 if required and has_default:
                     continue
+                if required and fpol == "exclude":
+                    continue     # Field(required=True, on_error='exclude') is refused at declaration; the class-level policy is not
                 name = dyn.fresh("Fld")
-                dflt = ", default=7" if has_default else ""
-                if required and pol == "exclude":
-                    # Field(required=True, on_error='exclude') is refused at declaration; the class-level policy is not
-                    src = ("class %s(Schema):\n    __options__ = Options(invalid_values='exclude')\n    a: int\n    f: PositiveInt\n" % name)
-                else:
-                    src = ("class %s(Schema):\n    a: int\n    f: PositiveInt = Field(on_error=%r, required=%r%s)\n"
-                           % (name, pol, required, dflt))
+                fargs = []
+                if fpol:
+                    fargs.append("on_error=%r" % fpol)
+                if not required:
+                    fargs.append("required=False")
+                if has_default:
+                    fargs.append("default=7")
+                src = ("class %s(Schema):\n%s    a: int\n    f: PositiveInt%s\n"
+                       % (name, "    __options__ = Options(invalid_values=%r)\n" % opol if opol else "",
+                          " = Field(%s)" % ", ".join(fargs) if fargs else ""))
                 dyn.declare(src)
                 cls = dyn.get(name)
                 for val in [5, "3", 0, -2, "x"]:
@@ -162,11 +170,63 @@ def field_suite(res, rng, tier):
                     if out != want:
                         bad.append(dict(src=src, value=val, got=repr(out), want=repr(want)))
     res.add_suite("field-on-error", n, n, [dict(policy="exclude", required=True, value=0, expect="ParseError")],
-                  "every on_error policy x required/optional x with/without default x valid/invalid values for one field",
+                  "every field on_error policy (or none) x every class-level invalid_values policy (or none) x required/optional x with/without default x valid/invalid values for one field: the field's own policy wins",
                   dict(failures=len(bad)))
     for b in bad[:2]:
         res.violations.append(dict(case=repr(b), observed=b["got"], what="field on_error: expected %s" % b["want"]))
 
+
+
+def addition_suite(res):
+    """typed additional keys (Options(addition=int)) under every pair (declared invalid_values, runtime invalid_values):
+    the policy of the options the parse runs with decides, for the extra keys as for the fields of the same parse"""
+    import utype
+    bad, n = [], 0
+    warnings.simplefilter("ignore")
+    for dpol in [None] + list(POL):
+        name = dyn.fresh("Add")
+        src = "class %s(Schema):\n    __options__ = Options(addition=int%s)\n    a: int\n    b: int = 0\n" % (
+            name, ", invalid_values=%r" % dpol if dpol else "")
+        dyn.declare(src)
+        cls = dyn.get(name)
+        for rpol in [None] + list(POL):
+            for dfs in (None, True, False):
+                kw = dict(addition=int)
+                if rpol:
+                    kw["invalid_values"] = rpol
+                if dfs is not None:
+                    kw["data_first_search"] = dfs
+                ro = utype.Options(**kw) if (rpol or dfs is not None) else None
+                pol = (rpol or "throw") if ro is not None else (dpol or "throw")
+                for data in ({"a": "1", "good": "2", "bad": "zz"}, {"a": 1, "b": "x", "bad": "zz", "good": 3}, {"a": 1, "good": "7"}):
+                    n += 1
+                    try:
+                        out = ("ok", dict(cls.__from__(dict(data), options=ro)))
+                    except Exception as e:
+                        out = core.classify_exc(e)
+                    invalid = "bad" in data or data.get("b") == "x"
+                    if not invalid:
+                        want = ("ok", {"a": 1, "b": 0, "good": 7})
+                    elif pol == "throw":
+                        want = ("parse",)
+                    else:
+                        w = {"a": 1}
+                        if data.get("b") == "x":
+                            w["b"] = 0 if pol == "exclude" else "x"
+                        else:
+                            w["b"] = 0
+                        w["good"] = int(data["good"])
+                        if pol == "preserve":
+                            w["bad"] = "zz"
+                        want = ("ok", w)
+                    if out[0] != want[0] or (out[0] == "ok" and out[1] != want[1]):
+                        bad.append(dict(src=src, runtime=kw if ro is not None else None, data=data, got=repr(out), want=repr(want)))
+    res.add_suite("typed-addition-policies", n, n, [dict(declared=None, runtime="exclude", data={"a": "1", "good": "2", "bad": "zz"},
+                                                        expect={"a": 1, "b": 0, "good": 2})],
+                  "a class with typed additional keys x declared policy x runtime policy x lookup strategy x three inputs: the extra "
+                  "keys follow the policy of the options the parse runs with, like the fields", dict(failures=len(bad)))
+    for b in bad[:2]:
+        res.violations.append(dict(case=repr(b), observed=b["got"], what="typed additional keys: expected %s" % b["want"]))
 
 def removal_case(i_seed):
     """class-level invalid_values='exclude': the outcome is that of the throwing class on the input with the offending fields'
@@ -369,6 +429,7 @@ def main(tier, seed):
     for c, o in bad[:3]:
         res.violations.append(dict(case=repr(c), observed=o, what=o))
     field_suite(res, rng, tier)
+    addition_suite(res)
     varargs_suite(res, tier, seed)
     removal_suite(res, tier, seed)
     return core.finish(res, "make -C coq Props/C11.vo && coqc (Print Assumptions audit)", "see suites", search=None,
